@@ -231,7 +231,7 @@ func (v *Verifier) newFrame(fn *ssa.Function, out *[]Outcome) *Frame {
 		li = findLoops(fn)
 		v.loopCache[fn] = li
 	}
-	return &Frame{v: v, fn: fn, regs: map[ssa.Value]Value{}, env: map[string]Value{}, envAddr: map[string]bool{}, calls: map[string]int{}, callRes: map[string][]Value{}, callArgs: map[string][]Value{}, out: out, loops: li, ctr: v.contractFor(fn), vars: map[string]Value{}}
+	return &Frame{v: v, fn: fn, regs: map[ssa.Value]Value{}, env: map[string]Value{}, envAddr: map[string]bool{}, envType: map[string]string{}, calls: map[string]int{}, callRes: map[string][]Value{}, callArgs: map[string][]Value{}, out: out, loops: li, ctr: v.contractFor(fn), vars: map[string]Value{}}
 }
 
 func (fr *Frame) bindParams(st *State, args []Value) {
